@@ -74,6 +74,14 @@ def _case(draw, known):
     if draw(st.integers(0, 3)) == 0:
         # thread pre-emption inside Sampler.add(): the actor thread ships samples while the executor thread is about to enqueue one
         case["preempt_add"] = draw(st.lists(st.sampled_from([1, 2, 3, 5, 7]), min_size=1, max_size=2))
+    shareable = [el["parallel"] for el in case["schedule"] if len(el.get("parallel", [])) >= 2]
+    if shareable and draw(st.integers(0, 2)) == 0:
+        # two tasks of one parallel element run operations of the same name (one operation referenced by two tasks with different names,
+        # or inline operations without a name, which are called after their type): their records must not be mixed up
+        tasks = shareable[draw(st.integers(0, len(shareable) - 1))]
+        for t in tasks[: draw(st.integers(2, len(tasks)))]:
+            if t.get("op_type", "sim-op") == "sim-op":
+                t["op_name"] = "sim-op"
     setting = draw(st.sampled_from(["default", "default", "default", "downsample", "tiny-queue"]))
     if setting == "downsample":
         case["downsample"] = draw(st.sampled_from([2, 7]))
@@ -99,7 +107,7 @@ def _expected(case, r):
         ts = (sim_race.kernel.EPOCH + q["t_enter"]) * 1000.0
         cid = q["es_client_id"]
         for name in ("latency", "service_time", "processing_time"):
-            exp[(name, q["task"], q["task"] + "-op", leaf.get("op_type", "sim-op"), cid)].append(ts)
+            exp[(name, q["task"], leaf.get("op_name", q["task"] + "-op"), leaf.get("op_type", "sim-op"), cid)].append(ts)
         spec = leaf["requests"][(q["client"] * leaf.get("stride", 7) + q["ordinal"]) % len(leaf["requests"])]
         if spec.get("deps") and q["outcome"] == "ok":
             # one service_time record per sub-request, stamped with the sub-request's own start
@@ -270,6 +278,8 @@ def run_case(case, obs):
         obs.cls("default-settings")
     if case.get("volume"):
         obs.cls("volume")
+    if sum(1 for _, leaf in sim_race.leaves(case["schedule"]) if leaf.get("op_name")) >= 2:
+        obs.cls("two-tasks-with-operations-of-one-name")
     if r.rt.stats.get("preemptions_with_work"):
         obs.cls("preempted-handler")
     if r.rt.stats.get("preemptions_in_sampler_add"):
